@@ -174,6 +174,13 @@ Theorem escapes_follow_readme b : (bZ b <? 128) = true -> (if safe b then [b] el
 Proof. exact (escapes_are_readme b). Qed.
 Print Assumptions escapes_follow_readme.
 
+(* integers are printed plain: optional minus sign, digits, no leading zero, never "-0" *)
+Theorem integers_are_plain z : exists sg d r,
+  format_int z = sg ++ d :: r /\ ((sg = [] /\ 0 <= z) \/ (sg = [c_minus] /\ z < 0)) /\
+  is_digit d = true /\ all_digits r = true /\ (bZ d = 48 -> r = [] /\ z = 0).
+Proof. exact (format_int_shape z). Qed.
+Print Assumptions integers_are_plain.
+
 (* PARTIAL, not proved: byte order of valid UTF-8 names = code point order (true of UTF-8 by design;
    the check compares Go's order with python's code point order on all ordered pairs of a 160-key
    alphabet);  the float text shape
